@@ -52,7 +52,8 @@ def configs(tier):
                         if tdt == 'int32' else ['uint32'] * P,
                         'tpl_dtypes': [['float32', 'float64'][(k + p + (tdt == 'uint32')) % 2] if k % 2 else
                                        ['float32', 'float64'][k % 4 // 2] for p in range(P)],
-                        'optional_matrices': k % 3 == 0, 'unused_last_template': k % 2 == 0})
+                        'optional_matrices': k % 3 == 0, 'unused_last_template': k % 2 == 0,
+                        'optional_matrix': ['similar_templates.npy', 'whitening_mat_inv.npy'][(k // 3) % 2]})
     return out
 
 
@@ -150,6 +151,7 @@ def run_config(cfg, e):
                        for pr in probes)
             m = out(fn, must=allp)
             if not allp:
+                e.prove(m is None, '%s written although a probe has no such matrix' % fn)
                 continue
             N = offs[-1]
             e.prove(m.shape == (N, N), '%s shape' % fn)
@@ -228,7 +230,10 @@ def replay(case):
             return 'template_feature_ind %s, expected %s (template offsets %s)' % (tfi.tolist(), wt.tolist(), Toff)
         from scipy.linalg import block_diag
         for fn in ('similar_templates.npy', 'whitening_mat.npy', 'whitening_mat_inv.npy'):
-            if all(pr[p]['mats'][fn][2] for p in range(P)):
+            if not all(pr[p]['mats'][fn][2] for p in range(P)):
+                if os.path.exists(os.path.join(rp.out, fn)):
+                    return '%s written although a probe has no such matrix' % fn
+            else:
                 w = block_diag(*[np.array(pr[p]['mats'][fn][0]).reshape(pr[p]['mats'][fn][1], -1) for p in range(P)])
                 if not np.allclose(L(fn), w):
                     return '%s not block diagonal' % fn
